@@ -20,6 +20,7 @@ player   Pbind/Pmono/Ppar/Pchain/Pdur/Pdelta/Pseq compositions of depth <= 2:
          requested total (the score ends at start + total).
 """
 
+import json
 import itertools
 import logging
 import math
@@ -1035,8 +1036,64 @@ def main(rep):
         check_keys(rep)
     if wants(rep, 'play'):
         check_play(rep)
+        check_replayed_events(rep)
     if wants(rep, 'player'):
         check_player(rep)
+
+
+def check_replayed_events(rep):
+    """The SAME event object played several times, with explicitly given control
+    keys changed (or added) in between: every play sends one /s_new carrying the
+    values the event has at that play."""
+    from sc3.base.stream import routine
+    from sc3.seq.event import event
+    n = 0
+    distinct = set()
+    for instr, spec in INSTR.items():
+        ctl = [c for c in spec['controls'] if c not in ('gate', 'dur', 'legato', 'sustain')]
+        for rounds in ([{'freq': 440.0, ctl[1]: 0.25}, {'freq': 660.0, ctl[1]: 0.5}],
+                       [{'freq': 220.0}, {'freq': 220.0, ctl[1]: 0.125}, {'freq': 330.0, ctl[1]: 0.75}],
+                       [{ctl[1]: 0.5, 'freq': 100.0}, {ctl[1]: 0.5, 'freq': 100.0, ctl[-1]: 0.375}]):
+            n += 1
+            distinct.add((instr, json.dumps(rounds)))
+
+            def fn(instr=instr, rounds=rounds):
+                @routine
+                def r():
+                    ev = event(dict(rounds[0], instrument=instr, dur=1.0))
+                    for k, keys in enumerate(rounds):
+                        if k:
+                            for name, val in keys.items():
+                                ev[name] = val
+                        ev.play()
+                        yield 2.0
+                r.play()
+            bundles, end, errors = nrt_run(fn, 0.0)
+            snew = [b for b in bundles if b[2][0] == '/s_new']
+            bad = None
+            if len(snew) != len(rounds):
+                bad = '%d /s_new bundles for %d plays' % (len(snew), len(rounds))
+            else:
+                for k, (keys, b) in enumerate(zip(rounds, snew)):
+                    got = dict(pairs_of(b[2], 5) or [])
+                    for name, val in keys.items():
+                        if name in spec['controls'] and (name not in got or not es.close(got[name], val)):
+                            bad = 'play %d of the same event object: /s_new carries %s=%r, the event has %r' % (
+                                k + 1, name, got.get(name), val)
+                            break
+                    if bad:
+                        break
+            if bad:
+                rep.violation(obligation='C14.play.replayed-event',
+                              what='%s on %s with keys %r: %s' % ('event played %d times' % len(rounds), instr, rounds, bad),
+                              input={'instrument': instr, 'rounds': rounds},
+                              key='C14.play:replayed-event-stale-values')
+    rep.bounded(name='replayed-events', function='sc3.seq.event (ServerKeys._get_msg_params, play)',
+                bound='3 instruments x 3 key-change histories of the same event object',
+                evaluations=n, distinct_nontrivial=len(distinct),
+                rule='explicit control keys changed or added between plays of one event object',
+                samples=[{'instrument': 'c14g', 'rounds': [{'freq': 440.0, 'amp': 0.25}, {'freq': 660.0, 'amp': 0.5}]}],
+                exhaustive=True)
 
 
 def replay(case, rep):
